@@ -39,6 +39,7 @@ pub fn run<C: NatCtx>(v: &mut Env<C>) {
     // any parallel block size are encoded as count || framed items IN ORDER (reference assembled here item by
     // item), decode back, and a shuffle of that size proves and verifies
     if v.small && p == big(23) && C::kind() == 'B' {
+        crate::p_c18::permutation_mixes(&mut v.h, if cfg!(feature = "rayon") { "rayon build" } else { "sequential build" });
         let key = PrivateKey::from(&v.x(&big(5)), &ctx);
         for nn in if quick { vec![8193usize, 8195, 20001, 70001] } else { vec![4097, 8193, 8195, 16385, 20001, 32769, 70001, 140001] } {
             let es: Vec<C::E> = (0..nn).map(|_| ctx.rnd()).collect();
